@@ -230,10 +230,10 @@ pub(crate) fn resolve_scan_paths(paths: &[PathBuf], include: &[String]) -> Vec<P
     paths.iter().map(|p| canonical_target(p)).collect()
 }
 
-/// Reduce a scan target to one spelling, so that verdicts do not depend on how it was typed:
+/// Reduce a scan target or file argument to one spelling, so that verdicts do not depend on how it was typed:
 /// `./src`, `src/` and `<cwd>/src` become `src`; `./` and `<cwd>` become `.`.
 /// Targets outside the working directory are kept as given.
-fn canonical_target(path: &Path) -> PathBuf {
+pub(crate) fn canonical_target(path: &Path) -> PathBuf {
     let relative = if path.is_absolute() {
         std::env::current_dir()
             .ok()
